@@ -620,7 +620,14 @@ class _Inliner:
                 isinstance(x, ast.Name) and x.id == target.id for a in list(call.args) + [k.value for k in call.keywords] for x in ast.walk(a)) else ()
             prefix, mapping = _bind(helper, call, is_method, keep)
             body = [copy.deepcopy(s) for s in body]
-            new = _conv(body, mode, target)
+            rets = [n for s_ in body for n in _walk_local(s_) if isinstance(n, ast.Return)]
+            same = {n.value.id for n in rets if isinstance(n.value, ast.Name)} if rets and all(isinstance(n.value, ast.Name) for n in rets) else set()
+            if mode == "assign" and len(same) == 1 and _always_returns(body) and not any(p_.arg == next(iter(same)) for p_ in helper.args.args):
+                # every exit returns the same local: run the body for its effects, then bind the result once
+                rv = next(iter(same))
+                new = _conv(body, "stmt", None) + [ast.copy_location(ast.Assign(targets=[copy.deepcopy(target)], value=ast.Name(id=rv, ctx=ast.Load()), lineno=st.lineno), st)]
+            else:
+                new = _conv(body, mode, target)
             if mode == "assign" and not _always_assigns(new, target):
                 new = [ast.copy_location(ast.Assign(targets=[copy.deepcopy(target)], value=ast.Constant(value=None), lineno=st.lineno), st)] + new
         except _NotInlinable:
